@@ -237,3 +237,84 @@ pub fn run(spec: &ProcSpec, scratch: &Scratch, tag: &str) -> Result<ProcResult, 
         timed_out,
     })
 }
+
+/// The system python3 (only used to give a child a pseudo-terminal; no
+/// third-party modules). None if there is none: pty worlds are then skipped.
+pub fn python3() -> Option<PathBuf> {
+    for cand in ["/usr/bin/python3", "/usr/local/bin/python3", "/bin/python3"] {
+        if Path::new(cand).exists() {
+            return Some(PathBuf::from(cand));
+        }
+    }
+    None
+}
+
+/// Runs the binary with standard input and/or standard output on a
+/// pseudo-terminal (through tools/ptyrun.py); stderr goes to a file.
+pub fn run_pty(
+    spec: &ProcSpec,
+    scratch: &Scratch,
+    tag: &str,
+    stdin_tty: bool,
+    stdout_tty: bool,
+) -> Result<Option<ProcResult>, String> {
+    crate::driver::heartbeat();
+    let py = match python3() {
+        Some(p) => p,
+        None => return Ok(None),
+    };
+    let helper = crate::driver::verif_dir().join("tools").join("ptyrun.py");
+    let input = scratch
+        .file(&format!("{}.stdin", tag), &spec.stdin)
+        .map_err(|e| e.to_string())?;
+    let out_path = scratch.path.join(format!("{}.out", tag));
+    let err_path = scratch.path.join(format!("{}.err", tag));
+    let st_path = scratch.path.join(format!("{}.status", tag));
+    let mut cmd = Command::new(py);
+    cmd.arg(&helper)
+        .arg(if stdin_tty { "1" } else { "0" })
+        .arg(if stdout_tty { "1" } else { "0" })
+        .arg(&input)
+        .arg(&out_path)
+        .arg(&err_path)
+        .arg(&st_path)
+        .arg(&spec.cwd)
+        .arg("--")
+        .arg(rrss_bin())
+        .args(&spec.args)
+        .env_clear()
+        .stdin(Stdio::null())
+        .stdout(Stdio::null())
+        .stderr(Stdio::piped());
+    for (k, v) in &spec.env {
+        cmd.env(k, v);
+    }
+    let child = {
+        let _guard = SPAWN_LOCK.lock().unwrap_or_else(|e| e.into_inner());
+        cmd.spawn().map_err(|e| format!("cannot spawn python3: {}", e))?
+    };
+    let out = child.wait_with_output().map_err(|e| e.to_string())?;
+    if !out.status.success() {
+        return Err(format!(
+            "ptyrun.py failed: {}",
+            String::from_utf8_lossy(&out.stderr).trim()
+        ));
+    }
+    let status = fs::read_to_string(&st_path).unwrap_or_default();
+    let status = status.trim();
+    let timed_out = status == "timeout";
+    let code: Option<i32> = status.parse::<i32>().ok();
+    let (code, signal) = match code {
+        Some(c) if c < 0 => (None, Some(-c)),
+        Some(c) => (Some(c), None),
+        None => (None, None),
+    };
+    Ok(Some(ProcResult {
+        stdout: fs::read(&out_path).unwrap_or_default(),
+        stderr: fs::read(&err_path).unwrap_or_default(),
+        combined: None,
+        code,
+        signal,
+        timed_out,
+    }))
+}
